@@ -1155,8 +1155,9 @@ def crash_followup(run, e6, wd, scn, T, crashed, call, where, count=True):
             run.count("crash_followup_restricted_refused_eperm")
         return []
     if f["outcome"] != "returned" or T2 != mine:
-        if not e6.pid_is_dead(crashed):
-            # the number of the crashed process has been handed out again: the file names a live process after all
+        holder = int(T) if T is not None and PIDLIKE.match(T) else None
+        if not e6.pid_is_dead(crashed) or (holder is not None and not e6.pid_is_dead(holder)):
+            # the number of the crashed (or of the long dead) process has been handed out again: the file names a live process after all
             run.info["transient_deviation"] = run.info.get("transient_deviation", 0) + 1
             return []
         if f["outcome"] == "blocked":
